@@ -417,3 +417,12 @@ def coords(tier, seed):
              f" on 5 meshes (antimeridian strip with +180 and -180 nodes, prime meridian patch incl. lon 360, north and south polar fans "
              f"with pole nodes, pole-centred quad); NUMBA JIT disabled")
     return result(run.cases, len(distinct), run.failures, bound, samples)
+
+
+
+def consumers(tier, seed):
+    """the coordinates a grid reports are unchanged by operations that only read them (shared machinery: standins.C03.consumers - every watched variable is compared with a copy taken before each of 20
+    read-only operations: differences, gradients, aggregations, integration, remapping, subsetting, tree queries, plotting
+    conversions, exports, area / bounds / dual construction)"""
+    from .C03 import consumers as _consumers
+    return _consumers(tier, seed, tables=('node_lon', 'node_lat', 'node_x', 'node_y', 'node_z', 'face_lon', 'face_lat', 'face_x', 'face_y', 'face_z', 'edge_lon', 'edge_lat', 'edge_x', 'edge_y', 'edge_z'), oracle_after=False)
